@@ -6,7 +6,7 @@ CONSTANTS
   VariantIds <- Variants12
   MaxOps = 0
   Alphabet <- NoOps
-  PreOps <- PreSib
+  PreOps <- PreSibQuick
   SibFields <- SibAll
   TamperMax = 0
 INVARIANTS TypeOK PIdStable PRoundTrip PRedactKeeps PV12 PSibling PSiblingHash Emit
